@@ -7,7 +7,7 @@ from . import builtin
 from ..file_types import *
 from ..iterutils import iterate, listify, uniques
 from ..languages import known_langs
-from ..path import Path, Root
+from ..path import atomic_write, Path, Root
 
 _kind_to_file_type = {
     'header': HeaderFile,
@@ -77,7 +77,7 @@ def make_immediate_file(context, file, mode='w', makedirs=True):
         os.makedirs(file.path.parent().string(context.env.base_dirs),
                     exist_ok=True)
 
-    with open(file.path.string(context.env.base_dirs), mode) as f:
+    with atomic_write(file.path.string(context.env.base_dirs), mode) as f:
         yield f
     context.build['regenerate'].outputs.append(file)
 
